@@ -94,7 +94,7 @@ pub fn record_c11(args: &Args, mut out: Out) -> usize {
     let all_sigma: Vec<[usize; 4]> = perms(4).into_iter().map(|p| [p[0], p[1], p[2], p[3]]).collect();
     for b in 0..nbase {
         // bases that make suits matter: flush-heavy flops, suited combos, overlapping cards, ties
-        let mut cfg = match b % 7 {
+        let mut cfg = match b % 9 {
             0 => random_cfg(&mut rng, 2, 4, 1),
             1 => random_cfg(&mut rng, 3, 3, 1),
             2 => {
@@ -119,6 +119,36 @@ pub fn record_c11(args: &Args, mut out: Out) -> usize {
                     ranges.push(r);
                 }
                 Cfg { flop, ranges, from: (0, 1), to: (48, 49), scoped: false }
+            }
+            7 => {
+                // the board can play for everyone: a flop of three broadway cards of one suit (the royal flush can come on
+                // turn and river), players holding small pairs and rags
+                let s = rng.usize(4);
+                let mut top = vec![0usize, 1, 2, 3, 4];
+                rng.shuffle(&mut top);
+                let flop = [4 * top[0] + s, 4 * top[1] + s, 4 * top[2] + s];
+                let o = (s + 1) % 4;
+                let ranges = vec![
+                    vec![Entry { a: 4 * 12 + o, b: 4 * 12 + (o + 1) % 4, m: 1, e: 0 }, Entry { a: 4 * 11 + o, b: 4 * 11 + (o + 2) % 4, m: 1, e: 1 }],
+                    vec![Entry { a: 4 * 10 + o, b: 4 * 10 + (o + 1) % 4, m: 1, e: 0 }],
+                    vec![Entry { a: 4 * 9 + o, b: 4 * 8 + (o + 1) % 4, m: 3, e: 2 }],
+                ];
+                Cfg { flop, ranges, from: (0, 1), to: (48, 49), scoped: false }
+            }
+            8 => {
+                // both players' ranges contain hands with the first and with the last card of the deck (As, 2c)
+                let f = loop {
+                    let f = rng.distinct(3, 52);
+                    if !f.contains(&0) && !f.contains(&51) {
+                        break f;
+                    }
+                };
+                let mk = |others: &[usize], c: usize| -> Vec<Entry> { others.iter().filter(|o| !f.contains(o) && **o != c).map(|&o| { let (a, b) = norm(c, o); Entry { a, b, m: 1, e: 1 } }).collect() };
+                let mut r1 = mk(&[50, 49, 3], 51);
+                r1.extend(mk(&[1, 4], 0));
+                let mut r2 = mk(&[48, 47, 7], 51);
+                r2.extend(mk(&[2, 8], 0));
+                Cfg { flop: [f[0], f[1], f[2]], ranges: vec![r1, r2], from: (0, 1), to: (48, 49), scoped: false }
             }
             6 => {
                 // a suit-symmetric range of more than 256 combos (all pockets, every suited and offsuit ace) against one combo
